@@ -784,14 +784,21 @@ func (e *ex) do(op string) core.Result {
 		errs := make(chan error, 2)
 		go func() { errs <- e.c.write(nC, rc) }()
 		go func() { errs <- e.t.write(nT, rt) }()
-		for i := 0; i < 2; i++ {
+		// a write may take as long as a slow reader needs; it is blocked when no byte has moved for 10 s
+		last, lastAt := e.moved(), time.Now()
+		for i := 0; i < 2; {
 			select {
 			case err := <-errs:
+				i++
 				if err != nil {
 					return core.Result{Impl: "write-failed " + e.obs(), Fail: "a write into the open tunnel failed: " + err.Error(), Sig: "c04:write-failed"}
 				}
-			case <-time.After(hardCap):
-				return core.Result{Impl: "write-blocked " + e.obs(), Fail: fmt.Sprintf("a write into the open tunnel blocked for %v (the proxy stopped reading)", hardCap), Sig: "c04:write-blocked"}
+			case <-time.After(50 * time.Millisecond):
+				if m := e.moved(); m != last {
+					last, lastAt = m, time.Now()
+				} else if time.Since(lastAt) > 10*time.Second {
+					return core.Result{Impl: "write-blocked " + e.obs(), Fail: "a write into the open tunnel has been blocked for 10 s without a byte arriving anywhere (the proxy stopped reading)", Sig: "c04:write-blocked"}
+				}
 			}
 		}
 		if nC > 0 && nT > 0 {
@@ -1301,6 +1308,11 @@ func (P) Gen(r *core.Rand, tier string, emit0 func(ops []string)) {
 	n, nIn := 220, 4
 	if tier == "thorough" {
 		n, nIn = 2200, 250
+		// the open finding (a busy tunnel older than the proxy's timeout) on other listener kinds and chunk sizes
+		for _, l := range []string{"plain", "tls"} {
+			emit([]string{fmt.Sprintf("open direct %s %s 0 0 %d %d 2500", l, r.Pick("tcp", "plain"), r.Intn(256), r.Intn(256)),
+				fmt.Sprintf("outlive %d %d", r.Range(1, 4096), r.Intn(1<<30)), "close t " + r.Pick("half", "full"), "end"})
+		}
 	}
 	for i := 0; i < n+nIn; i++ {
 		early := earlySizes[r.Intn(len(earlySizes))]
